@@ -34,6 +34,8 @@ def how(own):
             if 'stronger-than-stated' in u:
                 m = re.search(r'\[([^\]]+)\]', u)
                 why = 'a soft obligation failed (`%s`)' % (m.group(1).split()[0] if m else '?')
+            elif 'untagged proof step' in u:
+                why = 'a woven proof step no longer goes through, no clause of the property among the reported errors'
             elif 'outline' in u or 'rewrite' in u:
                 why = 'deductive check undecided: outlined / rewritten fragment changed'
             elif 'anchors' in u:
